@@ -234,7 +234,9 @@ class SshServer:
     def emit_packet(self, sock, kind, payload):
         # SSH_MSG_DEBUG messages in front of every packet (`debug`), or only in front of packets of given kinds (`debug_kinds`)
         for _ in range(self.cfg.get('debug', 0) + (self.cfg.get('debug_kinds') or {}).get(kind, 0)):
-            dbg = bytes([MSG_DEBUG, 0]) + wire.string(b'debug message') + wire.string(b'')
+            # (RFC 4253 11.3: always_display, message in ISO-10646 UTF-8, language tag.  `debug_body`: another body - text that is not
+            # UTF-8, a body that is cut short: a receiver has to skip the message all the same)
+            dbg = bytes([MSG_DEBUG]) + (self.cfg.get('debug_body') if self.cfg.get('debug_body') is not None else bytes([0]) + wire.string(b'debug message') + wire.string(b''))
             self.emit(sock, 'debug', wire.frame(dbg), perturbation=True)
         # SSH_MSG_IGNORE in front of packets of given kinds (legal, but the probes do not expect it: they give the probe up)
         for _ in range((self.cfg.get('ignore_kinds') or {}).get(kind, 0)):
@@ -443,7 +445,9 @@ class SshClient:
         lists = full_lists(cfg.get('kexinit', DEFAULT_KEXINIT))
         payload = wire.build_kexinit(lists)
         for _ in range(cfg.get('debug', 0)):
-            dbg = bytes([MSG_DEBUG, 0]) + wire.string(b'debug message') + wire.string(b'')
+            # (RFC 4253 11.3: always_display, message in ISO-10646 UTF-8, language tag.  `debug_body`: another body - text that is not
+            # UTF-8, a body that is cut short: a receiver has to skip the message all the same)
+            dbg = bytes([MSG_DEBUG]) + (self.cfg.get('debug_body') if self.cfg.get('debug_body') is not None else bytes([0]) + wire.string(b'debug message') + wire.string(b''))
             self.emit(sock, 'debug', wire.frame(dbg), perturbation=True)
         self.emit(sock, 'kexinit', wire.frame(payload))
 
